@@ -6,6 +6,7 @@ ASSUME = [
     "go/parser and go/printer (observers) are correct",
     "harness abstraction alpha and its inverse (self-checked by round trip on every generated vector)",
     "TLC evaluates Pattern.tla faithfully; verdicts are P-layer predicates evaluated on recorded real executions",
+    "for statement patterns the site is the whole statement list of the container, so a wrong result there (prefix / suffix / other fields of the container damaged) is attributed to this property too",
     "comparison is modulo ParenExpr (the printer inserts the parentheses an instantiated tree needs)",
 ]
 
@@ -27,7 +28,8 @@ def run(ctx):
     if quick:
         nm = fr.sample(ctx, nm, 120)
     results += fr.replay_and_judge(ctx, "nm", nm, None, shards=16)
-    st = fr.classify(ctx, results, known, accept_classes=("collateral",))
+    results += fr.replay_and_judge(ctx, "inter", fr.text_vectors(ctx, "corpus/inter/vectors.json", "C05"), None, shards=8)
+    st = fr.classify(ctx, results, known, accept_classes=("collateral",), stmt_wrongrepl=True)
     states, trans = fr.mc_counts(ctx)
     cov = dict(states=states, transitions=trans, traces_validated_against_impl=st["cases"],
                samples=[fr.short_sample(results[0]), fr.short_sample(results[-1])],
